@@ -586,6 +586,35 @@ func c11exec(c *h.Ctx, cs *h.Case) {
 			} else {
 				cs.Impl = append(cs.Impl, "refused "+obs())
 			}
+		case len(tk) == 3 && tk[1] == "readtree":
+			// the protocol of a built instance (listed, or finished already) reads its tree: a read — a scheduled
+			// removal must stay scheduled (seeded C11r6-A made Tree() refresh); without the tree Tree() panics
+			k, _ := strconv.Atoi(tk[2])
+			tok, ok := tokens[k]
+			_, running := inCtor[k]
+			if !ok || running || failing(k) || k >= 1000 || fix.RecOf(tok) == nil || ov.VerifInstanceState(tok) == "none" {
+				cs.Impl = append(cs.Impl, "disabled")
+				return true
+			}
+			res := "tree "
+			before := ov.VerifTreeState(tree.ID)
+			func() {
+				defer func() {
+					if r := recover(); r != nil {
+						res = "panic "
+					}
+				}()
+				if fix.RecOf(tok).Tni.Tree() == nil {
+					res = "panic "
+				}
+			}()
+			// oracle, independent of the model: reading the tree is not using it — a removal that was scheduled is
+			// still scheduled afterwards (or has been completed by its timer meanwhile)
+			if after := ov.VerifTreeState(tree.ID); strings.HasSuffix(before, "+armed") && after == "present" {
+				cs.Fail("tree-read-cancelled-removal", fmt.Sprintf("instance %d read its tree (Tree()) inside the grace period and the scheduled removal of the tree is gone: nothing will release the tree", k))
+			}
+			c.Count("op=readtree")
+			cs.Impl = append(cs.Impl, res+obs())
 		case len(tk) == 2 && tk[1] == "peerreq":
 			// a slow peer asks for the tree; the reply goes to server 0, whose processor counts it
 			before := atomic.LoadInt64(&replies)
@@ -813,6 +842,9 @@ func c11gen(c *h.Ctx, yield func(*h.Case)) {
 			fmt.Sprintf("c11 arrive %d 8", 3-first), fmt.Sprintf("c11 thread %d 8", 3-first), "c11 wait")
 		yield(&h.Case{Class: "busy-server", Ops: ops})
 	}
+	// an instance reads its tree after it declared itself done, inside the grace period: the removal stays scheduled
+	yield(&h.Case{Class: "corpus-read-after-done", Ops: []string{"c11 localstart 1", "c11 readtree 1", "c11 done 1", "c11 readtree 1", "c11 wait", "c11 readtree 1"}})
+	yield(&h.Case{Class: "corpus-read-after-done", Ops: []string{"c11 localstart 1", "c11 arrive 2 5", "c11 thread 2 5", "c11 done 1", "c11 readtree 1", "c11 done 2", "c11 readtree 2", "c11 readtree 1", "c11 peerreq", "c11 wait", "c11 readtree 2", "c11 readtree 3", "c11 readtree 500"}})
 	yield(&h.Case{Class: "corpus-peer-request-in-grace", Ops: []string{"c11 localstart 1", "c11 peerreq", "c11 done 1", "c11 peerreq", "c11 wait", "c11 peerreq"}})
 	yield(&h.Case{Class: "corpus-reuse", Ops: []string{"c11 localstart 1", "c11 arrive 2 5", "c11 thread 2 5", "c11 done 1", "c11 arrive 2 6", "c11 thread 2 6", "c11 done 2", "c11 arrive 3 7", "c11 thread 3 7", "c11 wait", "c11 done 3"}})
 	yield(&h.Case{Class: "corpus-race", Ops: []string{"c11 localstart 1", "c11 arrive 2 5", "c11 done 1", "c11 thread 2 5", "c11 wait", "c11 arrive 2 6", "c11 thread 2 6"}})
@@ -961,6 +993,9 @@ func c11gen(c *h.Ctx, yield func(*h.Case)) {
 				}
 			case x == 11 && r.Intn(2) == 0:
 				cs.Ops = append(cs.Ops, "c11 peerreq")
+				if len(known) > 0 {
+					cs.Ops = append(cs.Ops, fmt.Sprintf("c11 readtree %d", known[r.Intn(len(known))]))
+				}
 			case x == 11 && r.Intn(3) == 0:
 				cs.Ops = append(cs.Ops, "c11 treeresp")
 			case waits < 2 && len(pending) == 0:
